@@ -16,8 +16,11 @@ READS = ["current", "has_choices", "is_end", "choice_texts", "choice_targets", "
 
 def compile_source(src):
     from bardic.compiler.compiler import BardCompiler
-    with quiet(), time_limit(10):
-        return BardCompiler().compile_string(src)
+    try:
+        with quiet(), time_limit(10):
+            return BardCompiler().compile_string(src)
+    except Timeout:
+        raise TimeoutError("compile_string does not terminate within 10 s")
 
 
 def walk(rng, story, n_ops, variant="main", weights=None, per_call_s=5.0, prefer=None):
